@@ -42,6 +42,10 @@ func driveOnce(plan []M, out *Out, _ []string) {
 		var o1 sync2.Once1[int]
 		var o2 sync2.Once2[int, int]
 		var o3 sync2.Once3[int, int, int]
+		var o2e sync2.Once2[int, error] // trailing result is a non-nil error value
+		var o3e sync2.Once3[int, int, error]
+		var o1e sync2.Once1[error]
+		errTyped := boolean(sc, "err")
 		gate := make(chan struct{})
 		inF := make(chan int, 16)
 		effect := 0 // plain variable written as the function's last statement
@@ -60,11 +64,26 @@ func driveOnce(plan []M, out *Out, _ []string) {
 			log(M{"ev": "invoke", "t": t})
 			body := fn(t)
 			var vals []int
-			switch arity {
-			case 1:
+			unerr := func(e error) int {
+				if x, ok := e.(idErr); ok {
+					return int(x)
+				}
+				return 0
+			}
+			switch {
+			case arity == 1 && errTyped:
+				a := o1e.Do(func() error { body(); return idErr(t*10 + 1) })
+				vals = []int{unerr(a)}
+			case arity == 2 && errTyped:
+				a, b := o2e.Do(func() (int, error) { body(); return t*10 + 1, idErr(t*10 + 2) })
+				vals = []int{a, unerr(b)}
+			case errTyped:
+				a, b, c := o3e.Do(func() (int, int, error) { body(); return t*10 + 1, t*10 + 2, idErr(t*10 + 3) })
+				vals = []int{a, b, unerr(c)}
+			case arity == 1:
 				a := o1.Do(func() int { body(); return t*10 + 1 })
 				vals = []int{a}
-			case 2:
+			case arity == 2:
 				a, b := o2.Do(func() (int, int) { body(); return t*10 + 1, t*10 + 2 })
 				vals = []int{a, b}
 			default:
@@ -121,3 +140,8 @@ func driveOnce(plan []M, out *Out, _ []string) {
 		log(M{"ev": "end"})
 	}
 }
+
+// idErr is an error value carrying an int, so that results of error type can be written into the trace.
+type idErr int
+
+func (e idErr) Error() string { return "e" }
